@@ -239,6 +239,77 @@ func (h *hist) anyPos(label string) uint32 {
 	return uint32(h.g.of(label, 0, 1, 499, 500, 501, 1000, 1500, 5000, 10000, 100000, 1<<31, math.MaxUint32))
 }
 
+// repeatUnits plans a list that names the SAME peer k = 2..3 times in one call (withdraw, authorizeForPeer,
+// unAuthorizeForPeer take parallel lists of peers and amounts and process them entry by entry, each entry seeing what
+// the entries before it left). max >= 1 is what the state offers for that peer, in units (1 ONT for withdraw,
+// MinAuthorizePos for the other two). Every amount is individually valid (1..max units); their sum is below max,
+// equal to max, or exceeds it (mode). A mode the state cannot carry degrades: below -> equal -> (k=2) -> exceeds.
+func (h *hist) repeatUnits(label string, max uint64, exceedsPct, equalPct int) (mode string, parts []uint64) {
+	g := h.g
+	k := 2
+	if g.pct(label+"K") < 35 {
+		k = 3
+	}
+	switch r := g.pct(label + "Mode"); {
+	case r < exceedsPct:
+		mode = "exceeds"
+	case r < exceedsPct+equalPct:
+		mode = "equal"
+	default:
+		mode = "below"
+	}
+	if mode == "below" && max < uint64(k)+1 {
+		mode = "equal"
+	}
+	if mode == "equal" && max < uint64(k) {
+		k = 2
+	}
+	if mode == "equal" && max < uint64(k) {
+		mode = "exceeds"
+	}
+	split := func(total uint64) []uint64 { // k parts >= 1 with the given sum (total >= k)
+		out := make([]uint64, k)
+		rest := total
+		for i := 0; i < k-1; i++ {
+			room := rest - uint64(k-1-i)
+			out[i] = g.of(label+"Part", 1, room, (room+1)/2, g.rng(label+"PartR", 1, room))
+			rest -= out[i]
+		}
+		out[k-1] = rest
+		return out
+	}
+	switch mode {
+	case "equal":
+		parts = split(max)
+	case "below":
+		t := g.of(label+"Sum", uint64(k), uint64(k)+1, max-1, max-1, g.rng(label+"SumR", uint64(k), max-1))
+		if t > max-1 {
+			t = max - 1
+		}
+		parts = split(t)
+	default:
+		var sum uint64
+		for i := 0; i < k; i++ {
+			v := g.of(label+"Over", 1, max, max, (max+1)/2, g.rng(label+"OverR", 1, max))
+			parts = append(parts, v)
+			sum += v
+		}
+		if sum <= max {
+			parts[k-1] = max
+		}
+	}
+	return mode, parts
+}
+
+// tagRepeat marks an action whose list names one peer more than once.
+func tagRepeat(a *action, mode string) *action {
+	a.rep = mode
+	if mode == "exceeds" { // the entries are valid one by one, the call as a whole is not
+		a.valid = false
+	}
+	return a
+}
+
 func (h *hist) sigNames(s []common.Address) string {
 	n := make([]string, len(s))
 	for i, a := range s {
@@ -540,6 +611,45 @@ func (h *hist) validAction(kind string) *action {
 		}
 		pr := c[g.n("authPair", len(c))]
 		budget := s.ont[pr.ad]
+		// the same peer listed 2-3 times in one call: the entries add up against the peer's headroom and the payer's ONT
+		if g.pct("authRepeat") < 18 {
+			head := h.headroom(s.pool[pr.pub])
+			if head > budget {
+				head = budget
+			}
+			mode, parts := h.repeatUnits("authRep", head/minPos, 30, 10)
+			var pubs []string
+			var pos []uint32
+			for _, u := range parts {
+				if u*minPos > math.MaxUint32 {
+					return nil
+				}
+				pubs, pos = append(pubs, h.sp(pr.pub)), append(pos, uint32(u*minPos))
+			}
+			if g.pct("authRepOther") < 25 { // ... with another peer in between
+				var other []string
+				for _, x := range c {
+					if x.ad == pr.ad && x.pub != pr.pub {
+						other = append(other, x.pub)
+					}
+				}
+				if len(other) > 0 {
+					at := 1 + g.n("authRepAt", len(pubs)-1)
+					pubs = append(pubs[:at], append([]string{h.sp(other[g.n("authRepQ", len(other))])}, pubs[at:]...)...)
+					pos = append(pos[:at], append([]uint32{uint32(minPos)}, pos[at:]...)...)
+					if mode != "exceeds" {
+						var sum uint64
+						for _, v := range pos {
+							sum += uint64(v)
+						}
+						if sum > budget {
+							mode = "exceeds"
+						}
+					}
+				}
+			}
+			return tagRepeat(h.mkAuthorize("authorizeForPeer", gov.AUTHORIZE_FOR_PEER, pr.ad, pubs, pos, h.sigs(pr.ad), true), mode)
+		}
 		used := map[string]uint64{}
 		var pubs []string
 		var pos []uint32
@@ -576,7 +686,11 @@ func (h *hist) validAction(kind string) *action {
 		if len(pubs) == 0 {
 			return nil
 		}
-		return h.mkAuthorize("authorizeForPeer", gov.AUTHORIZE_FOR_PEER, pr.ad, pubs, pos, h.sigs(pr.ad), true)
+		a := h.mkAuthorize("authorizeForPeer", gov.AUTHORIZE_FOR_PEER, pr.ad, pubs, pos, h.sigs(pr.ad), true)
+		if len(pubs) == 2 && canon(pubs[0]) == canon(pubs[1]) {
+			tagRepeat(a, "below") // the second pick fell on the same peer (budget and headroom were shared)
+		}
+		return a
 
 	case "unAuthorizeForPeer":
 		type cand struct {
@@ -605,6 +719,28 @@ func (h *hist) validAction(kind string) *action {
 		}
 		if len(c) == 0 {
 			return nil
+		}
+		// the same peer listed 2-3 times in one call: every entry sees the position the entries before it left
+		if g.pct("unauthRepeat") < 18 {
+			var rc []cand
+			for _, x := range c {
+				if !x.small {
+					rc = append(rc, x)
+				}
+			}
+			if len(rc) > 0 {
+				x := rc[g.n("unauthRepEntry", len(rc))]
+				mode, parts := h.repeatUnits("unauthRep", x.avail/minPos, 30, 35)
+				var pubs []string
+				var pos []uint32
+				for _, u := range parts {
+					if u*minPos > math.MaxUint32 {
+						return nil
+					}
+					pubs, pos = append(pubs, h.sp(x.e.pub)), append(pos, uint32(u*minPos))
+				}
+				return tagRepeat(h.mkAuthorize("unAuthorizeForPeer", gov.UNAUTHORIZE_FOR_PEER, x.e.addr, pubs, pos, h.sigs(x.e.addr), true), mode)
+			}
 		}
 		// goal-directed bias: positions topped up in this epoch, un-authorizing more than the top-up
 		var top, topCand []cand
@@ -681,6 +817,31 @@ func (h *hist) validAction(kind string) *action {
 				return uint32(e.unfreeze)
 			}
 			return uint32(g.rng("wdAmt", 1, e.unfreeze))
+		}
+		// the same peer listed 2-3 times in one call: amounts that are each within the unfrozen position, their sum
+		// below / equal to / above it (every entry has to see what the entries before it took)
+		if g.pct("wdRepeat") < 30 {
+			mode, parts := h.repeatUnits("wdRep", e.unfreeze, 35, 35)
+			var pubs []string
+			var amts []uint32
+			for _, u := range parts {
+				pubs, amts = append(pubs, h.sp(e.pub)), append(amts, uint32(u))
+			}
+			if g.pct("wdRepOther") < 25 { // ... with another peer in between
+				var more []*authInfo
+				for _, o := range c {
+					if o.addr == e.addr && o.pub != e.pub {
+						more = append(more, o)
+					}
+				}
+				if len(more) > 0 {
+					o := more[g.n("wdRepQ", len(more))]
+					at := 1 + g.n("wdRepAt", len(pubs)-1)
+					pubs = append(pubs[:at], append([]string{h.sp(o.pub)}, pubs[at:]...)...)
+					amts = append(amts[:at], append([]uint32{amt(o)}, amts[at:]...)...)
+				}
+			}
+			return tagRepeat(h.mkWithdraw(e.addr, pubs, amts, h.sigs(e.addr), true), mode)
 		}
 		pubs, amts := []string{h.sp(e.pub)}, []uint32{amt(e)}
 		if g.pct("wdMulti") < 25 {
@@ -875,6 +1036,10 @@ func (h *hist) validAction(kind string) *action {
 				pubs = append(pubs, h.sp(q.pub))
 			}
 		}
+		if g.pct("blackRepeat") < 15 { // the same node twice in one list: [P,P] or [P,Q,P]
+			pubs = append(pubs, h.sp(p.pub))
+			return tagRepeat(h.mkBlack(pubs, h.sigs(w.admin), true), "same")
+		}
 		return h.mkBlack(pubs, h.sigs(w.admin), true)
 
 	case "whiteNode":
@@ -1020,13 +1185,22 @@ func (h *hist) arbitraryAction(kind string) *action {
 		for i := 0; i < k; i++ {
 			pubs, pos = append(pubs, h.anyPub("arbPub")), append(pos, h.anyPos("arbPos"))
 		}
+		rep := ""
+		if k > 0 && g.pct("arbRepeat") < 25 { // one of the peers once more, with an amount of its own
+			pubs, pos = append(pubs, pubs[g.n("arbRepOf", k)]), append(pos, h.anyPos("arbPos"))
+			rep = "arbitrary"
+		}
+		var a *action
 		switch kind {
 		case "authorizeForPeer":
-			return h.mkAuthorize(kind, gov.AUTHORIZE_FOR_PEER, ad, pubs, pos, h.anySigs(ad), false)
+			a = h.mkAuthorize(kind, gov.AUTHORIZE_FOR_PEER, ad, pubs, pos, h.anySigs(ad), false)
 		case "unAuthorizeForPeer":
-			return h.mkAuthorize(kind, gov.UNAUTHORIZE_FOR_PEER, ad, pubs, pos, h.anySigs(ad), false)
+			a = h.mkAuthorize(kind, gov.UNAUTHORIZE_FOR_PEER, ad, pubs, pos, h.anySigs(ad), false)
+		default:
+			a = h.mkWithdraw(ad, pubs, pos, h.anySigs(ad), false)
 		}
-		return h.mkWithdraw(ad, pubs, pos, h.anySigs(ad), false)
+		a.rep = rep
+		return a
 	case "withdrawOng":
 		p := &gov.WithdrawOngParam{Address: ad}
 		return h.mk(kind, gov.WITHDRAW_ONG, ser(p.Serialization), h.anySigs(ad), false, "%s", w.name(ad))
@@ -1051,6 +1225,12 @@ func (h *hist) arbitraryAction(kind string) *action {
 		var pubs []string
 		for i, k := 0, g.n("arbListN", 3); i < k; i++ {
 			pubs = append(pubs, h.anyPub("arbPub"))
+		}
+		if len(pubs) > 0 && g.pct("arbRepeat") < 25 {
+			pubs = append(pubs, pubs[g.n("arbRepOf", len(pubs))])
+			a := h.mkBlack(pubs, h.anySigs(w.admin), false)
+			a.rep = "arbitrary"
+			return a
 		}
 		return h.mkBlack(pubs, h.anySigs(w.admin), false)
 	case "whiteNode":
